@@ -35,7 +35,12 @@ Algo(name) ==
     [] name = "SHA-224" -> [kind |-> "sha2", wb |-> 4, rounds |-> 64, iv |-> HexWords(IV224), K |-> HexWords(K256), out |-> 7, lenb |-> 8, little |-> FALSE]
     [] name = "SHA-512" -> [kind |-> "sha2", wb |-> 8, rounds |-> 80, iv |-> HexWords(IV512), K |-> HexWords(K512), out |-> 8, lenb |-> 16, little |-> FALSE]
     [] name = "SHA-384" -> [kind |-> "sha2", wb |-> 8, rounds |-> 80, iv |-> HexWords(IV384), K |-> HexWords(K512), out |-> 6, lenb |-> 16, little |-> FALSE]
-Modelled == {"md5", "sha1", "SHA-224", "SHA-256", "SHA-384", "SHA-512"}
+    [] name = "SHA-512/224" -> [kind |-> "sha2", wb |-> 8, rounds |-> 80, iv |-> HexWords(IV512_224), K |-> HexWords(K512), out |-> 4, lenb |-> 16, little |-> FALSE]
+    [] name = "SHA-512/256" -> [kind |-> "sha2", wb |-> 8, rounds |-> 80, iv |-> HexWords(IV512_256), K |-> HexWords(K512), out |-> 4, lenb |-> 16, little |-> FALSE]
+Modelled == {"md5", "sha1", "SHA-224", "SHA-256", "SHA-384", "SHA-512", "SHA-512/224", "SHA-512/256"}
+\* digest length in bytes (SHA-512/224 ends in the middle of a word)
+OutBytes(name) == CASE name = "md5" -> 16 [] name = "sha1" -> 20 [] name \in {"SHA-224", "SHA-512/224"} -> 28 [] name \in {"SHA-256", "SHA-512/256"} -> 32
+                    [] name = "SHA-384" -> 48 [] name = "SHA-512" -> 64
 
 (* ---------- padding and blocks ---------- *)
 \* n as `k` big-endian bytes (n < 2^31)
@@ -95,7 +100,7 @@ RECURSIVE HexOf(_)
 HexOf(bs) == IF bs = <<>> THEN <<>> ELSE <<HexChar(Head(bs) \div 16), HexChar(Head(bs) % 16)>> \o HexOf(Tail(bs))
 RECURSIVE WordsBytes(_, _)
 WordsBytes(ws, little) == IF ws = <<>> THEN <<>> ELSE (IF little THEN Rev(BitsToBytes(Head(ws))) ELSE BitsToBytes(Head(ws))) \o WordsBytes(Tail(ws), little)
-DigestHex(A, h) == HexOf(WordsBytes(SubSeq(h, 1, A.out), A.little))
+DigestHex(A, h, name) == HexOf(SubSeq(WordsBytes(SubSeq(h, 1, A.out), A.little), 1, OutBytes(name)))
 
 (* ---------- SHA-3 (FIPS 202): Keccak-f[1600] on 25 lanes of 64 bits, each lane LEAST significant bit first ---------- *)
 LaneIdx(x, y) == (x % 5) + 5 * (y % 5) + 1
